@@ -85,6 +85,12 @@ pub trait World: Sync + Send {
     fn name(&self) -> &'static str;
     /// Generates the explicit scenario (scripts, knobs, faults, sub-seeds) of run `seed`.
     fn generate(&self, seed: u64, tier: Tier) -> Json;
+    /// Generates run `index` of the batch with master seed `verif_seed`. By default every run has an
+    /// independent seed; a world may override this to *enumerate* fault placements systematically
+    /// (e.g. every crash point of one base scenario on consecutive indices).
+    fn generate_at(&self, verif_seed: u64, index: u64, tier: Tier) -> Json {
+        self.generate(crate::core::rng::mix(verif_seed, self.name(), index), tier)
+    }
     /// Executes a scenario. Called on a fresh OS thread. Must be a pure function of the scenario
     /// and the code under test.
     fn execute(&self, scenario: &Json, keep_log: bool) -> Outcome;
